@@ -176,6 +176,17 @@ Print Assumptions C08_utf8_file.
 Theorem C08_utf8_register : forall cs, line_valid cs -> valid (flat cs).
 Proof. exact flat_valid. Qed.
 Print Assumptions C08_utf8_register.
+(* ---------- the state invariant of the modelled commands ---------- *)
+(* every program of modelled commands keeps: valid UTF-8 (C08_utf8), every line well formed (exactly one newline
+   character, at its end), and the cursor on an existing character of an existing line (C07's cursor_ok; (0,0) in
+   the empty buffer) -- so the hypotheses of the per-command theorems below hold again after every command *)
+Theorem C08_state_invariant : forall rows cs e e', est_inv e -> Forall cmd_valid cs -> exec rows cs e = Some e' -> est_inv e'.
+Proof. exact exec_inv. Qed.
+Print Assumptions C08_state_invariant.
+Theorem C08_state_invariant_initial : forall b, buf_wf b -> buf_valid b -> est_inv (init_est b).
+Proof. exact init_inv. Qed.
+Print Assumptions C08_state_invariant_initial.
+
 (* ---------- C08_refines (PARTIAL) ---------- *)
 (* Full statement aimed at (DESIGN section 6): for every program of x X D C s S Y J r ~ g~ gu gU < > p P and inserts,
    text, cursor and registers of the interpreter equal those of a smaller declarative reference.
